@@ -134,16 +134,23 @@ ContainsArrow(l) == \E k \in 1..(Len(l) - 2) : SubSeq(l, k, k + 2) = <<DASH, DAS
 Decoded(fmt, ls) == IF fmt = "WebVTT" THEN [k \in 1..Len(ls) |-> DecodeVtt(ls[k])] ELSE ls
 Collapsing(fmt) == fmt \in {"DFXP", "SAMI"}
 
+\* rec.pre / rec.post (optional): the lines of the cues written before and after the caption under
+\* test (neighbours make a cue that runs into the next one, or swallows it, visible)
+PreCues(rec) == IF "pre" \in DOMAIN rec THEN rec.pre ELSE <<>>
+PostCues(rec) == IF "post" \in DOMAIN rec THEN rec.post ELSE <<>>
+Wanted(rec) == PreCues(rec) \o <<rec.lines>> \o PostCues(rec)
 TextOk(rec, cues) ==
-  /\ Len(cues) = 1
-  /\ NormLines(Decoded(rec.fmt, cues[1]), Collapsing(rec.fmt)) = NormLines(rec.lines, Collapsing(rec.fmt))
+  LET want == Wanted(rec) IN
+  /\ Len(cues) = Len(want)
+  /\ \A k \in 1..Len(want) :
+       NormLines(Decoded(rec.fmt, cues[k]), Collapsing(rec.fmt)) = NormLines(want[k], Collapsing(rec.fmt))
 
 VerdictText(rec) ==
   IF ~rec.ok THEN "OutputNotParseable"
   ELSE IF TextOk(rec, rec.cues) THEN "ok"
   ELSE IF rec.fmt = "SRT" /\ TextOk(rec, rec.cues2) THEN "ok"
-  ELSE IF Len(rec.cues) # 1 THEN
-       (IF Len(rec.cues) = 0 THEN "CueLost" ELSE "CueSplitOrCreated")
+  ELSE IF Len(rec.cues) # Len(Wanted(rec)) THEN
+       (IF Len(rec.cues) < Len(Wanted(rec)) THEN "CueLostOrMerged" ELSE "CueSplitOrCreated")
   ELSE "TextChanged"
 
 -----------------------------------------------------------------------------
